@@ -7,8 +7,9 @@
 //! the two terms must evaluate equally under 6 fixed-seed assignments of the slots; a slot that is free in a kept term but
 //! no longer a slot of its class must not influence the term's value (a class drops a parameter only if its terms do not
 //! depend on it).  Necessary conditions only: a wrong `true` that happens to agree with the model is not seen.
-//! Bound: 10 hand-written + 120 (deep: 4000) histories of 4 law instances over operand terms of depth <= 1 with 3 slot
-//! names (all subterms and a slot-permuted copy of each side are kept as handles), unions in fixed-seed order.
+//! Bound: 12 hand-written + 60 (deep: 4000) histories of 4 law instances over operand terms of depth <= 1 with 3 slot
+//! names (all subterms, a slot-permuted copy of each side and parents of the sides that re-use one of their slots are
+//! inserted before any union and kept as handles), unions in fixed-seed order.
 //! also-with-features: checks
 use crate::*;
 
@@ -149,6 +150,13 @@ pub fn run(only: &[String]) -> Vec<String> {
         (vec![(format!("(add {} zero)", v(1)), v(1)), (format!("(add {} {})", v(1), v(2)), format!("(add {} {})", v(2), v(1)))], vec![format!("(add zero {})", v(2)), format!("(add zero zero)")]),
         (vec![(format!("(mul (sub {} {}) {})", v(1), v(1), v(2)), format!("(mul {} (sub {} {}))", v(2), v(1), v(1))), (format!("(sub {} {})", v(1), v(1)), "zero".to_string()), (format!("(mul {} zero)", v(2)), "zero".to_string())], vec![format!("(mul (sub {} {}) {})", v(3), v(3), v(1))]),
     ];
+    let hand: Vec<(Vec<(String, String)>, Vec<String>)> = hand.into_iter().chain(vec![
+        // a commutative child, then the child is equated with a term of another shape; parents re-use a slot of the child
+        (vec![(format!("(add {} {})", v(1), v(2)), format!("(add {} {})", v(2), v(1))), (format!("(add (add {} {}) zero)", v(1), v(2)), format!("(add {} {})", v(1), v(2)))],
+         vec![format!("(mul (add {} {}) {})", v(1), v(2), v(2)), format!("(mul (add {} {}) {})", v(1), v(2), v(1)), format!("(mul (add (add {} {}) zero) {})", v(1), v(2), v(2)), format!("(mul (add (add {} {}) zero) {})", v(1), v(2), v(1)), format!("(sub {} (add {} {}))", v(2), v(1), v(2)), format!("(sub {} (add (add {} {}) zero))", v(2), v(1), v(2))]),
+        (vec![(format!("(mul {} {})", v(1), v(2)), format!("(mul {} {})", v(2), v(1))), (format!("(mul (mul {} {}) one)", v(1), v(2)), format!("(mul {} {})", v(1), v(2)))],
+         vec![format!("(sub (mul {} {}) {})", v(1), v(2), v(2)), format!("(sub (mul {} {}) {})", v(1), v(2), v(1)), format!("(sub (mul (mul {} {}) one) {})", v(1), v(2), v(2)), format!("(sub (mul (mul {} {}) one) {})", v(1), v(2), v(1))]),
+    ]).collect();
     for (pairs, extra) in hand {
         let orders: Vec<Vec<usize>> = if pairs.len() == 1 { vec![vec![0]] } else if pairs.len() == 2 { vec![vec![0, 1], vec![1, 0]] } else { vec![vec![0, 1, 2], vec![2, 1, 0], vec![1, 2, 0]] };
         for order in orders {
@@ -157,12 +165,20 @@ pub fn run(only: &[String]) -> Vec<String> {
             if let Err(e) = run_history(&pairs, &extra, &order, &desc) { if n < 3 { n += 1; let (c, m) = e.split_once(' ').unwrap(); fails.push(format!("FAIL EGraph::eq {} {}", c, m)); } }
         }
     }
-    let seeds: u64 = if deep { 4000 } else { 120 };
+    let seeds: u64 = if deep { 4000 } else { 60 };
     for seed in 1..=seeds {
         let mut r = Rng(seed.wrapping_mul(0x9E3779B97F4A7C15).wrapping_add(3));
         let pairs: Vec<(String, String)> = (0..4).map(|_| law(&mut r)).collect();
         let mut extra = Vec::new();
         for (a, b) in &pairs { if r.next(2) == 0 { extra.push(permute_slots(a, &mut r)); } if r.next(3) == 0 { extra.push(permute_slots(b, &mut r)); } }
+        // parents of the law sides that re-use one of their slots, inserted BEFORE any union (so that they are stored
+        // in the shape they had while their child was still asymmetric), and the same parent with another slot
+        for (a, b) in &pairs { for side in [a, b] { if r.next(2) == 0 {
+            let op = ["mul", "add", "sub"][r.next(3) as usize];
+            let v1 = 1 + r.next(3); let v2 = 1 + (v1 % 3);
+            extra.push(format!("({} {} (var ${}))", op, side, v1));
+            extra.push(format!("({} {} (var ${}))", op, side, v2));
+        }}}
         let mut order: Vec<usize> = (0..4).collect();
         for i in (1..4).rev() { let j = r.next(i as u64 + 1) as usize; order.swap(i, j); }
         let desc = format!("history (seed {}): laws {:?}, also inserted {:?}, unions in order {:?}", seed, pairs, extra, order);
